@@ -54,8 +54,20 @@ fn read_exact<R: Read>(r: &mut R, mut buf: &mut [u8]) -> Result<(), Error> {
 }
 
 pub fn to_writer<W: Write, T: Serialize>(w: W, v: &T) -> Result<(), Error> {
-    let mut s = Ser { w };
+    to_writer_opt(w, v, false)
+}
+
+/// `names`: struct names are written and checked on the way back (as RON with `struct_names`, or XML-like
+/// formats, do), so a `Serialize`/`Deserialize` pair that disagrees on the type's name fails.
+pub fn to_writer_opt<W: Write, T: Serialize>(w: W, v: &T, names: bool) -> Result<(), Error> {
+    let mut s = Ser { w, names };
     v.serialize(&mut s)
+}
+
+pub fn to_vec_opt<T: Serialize>(v: &T, names: bool) -> Result<Vec<u8>, Error> {
+    let mut out = Vec::new();
+    to_writer_opt(&mut out, v, names)?;
+    Ok(out)
 }
 
 pub fn to_vec<T: Serialize>(v: &T) -> Result<Vec<u8>, Error> {
@@ -65,7 +77,11 @@ pub fn to_vec<T: Serialize>(v: &T) -> Result<Vec<u8>, Error> {
 }
 
 pub fn from_reader<R: Read, T: de::DeserializeOwned>(r: R) -> Result<T, Error> {
-    let mut d = De { r };
+    from_reader_opt(r, false)
+}
+
+pub fn from_reader_opt<R: Read, T: de::DeserializeOwned>(r: R, names: bool) -> Result<T, Error> {
+    let mut d = De { r, names };
     let v = T::deserialize(&mut d)?;
     // the whole input must have been consumed
     let mut probe = [0u8; 1];
@@ -83,10 +99,27 @@ pub fn from_slice<T: de::DeserializeOwned>(b: &[u8]) -> Result<T, Error> {
     from_reader(b)
 }
 
+/// `Deserialize::deserialize_in_place` into an existing value.
+pub fn from_slice_in_place<T: de::DeserializeOwned>(b: &[u8], place: &mut T) -> Result<(), Error> {
+    let mut d = De { r: b, names: false };
+    de::Deserialize::deserialize_in_place(&mut d, place)
+}
+
 // ---------------------------------------------------------------------------------------------------
 
 pub struct Ser<W: Write> {
     w: W,
+    names: bool,
+}
+
+impl<W: Write> Ser<W> {
+    fn name(&mut self, n: &'static str) -> Result<(), Error> {
+        if self.names {
+            write_all(&mut self.w, &(n.len() as u64).to_le_bytes())?;
+            write_all(&mut self.w, n.as_bytes())?;
+        }
+        Ok(())
+    }
 }
 
 macro_rules! unsupported_ser {
@@ -136,7 +169,8 @@ impl<'a, W: Write> ser::Serializer for &'a mut Ser<W> {
     fn serialize_unit_variant(self, _n: &'static str, _i: u32, _v: &'static str) -> Result<(), Error> {
         Err(Error("positional format: enums not supported".into()))
     }
-    fn serialize_newtype_struct<T: ?Sized + Serialize>(self, _n: &'static str, v: &T) -> Result<(), Error> {
+    fn serialize_newtype_struct<T: ?Sized + Serialize>(self, n: &'static str, v: &T) -> Result<(), Error> {
+        self.name(n)?;
         v.serialize(self)
     }
     fn serialize_newtype_variant<T: ?Sized + Serialize>(self, _n: &'static str, _i: u32, _v: &'static str, _x: &T) -> Result<(), Error> {
@@ -159,7 +193,8 @@ impl<'a, W: Write> ser::Serializer for &'a mut Ser<W> {
     fn serialize_map(self, _len: Option<usize>) -> Result<Self::SerializeMap, Error> {
         Err(Error("positional format: maps not supported".into()))
     }
-    fn serialize_struct(self, _n: &'static str, _len: usize) -> Result<Self, Error> {
+    fn serialize_struct(self, n: &'static str, _len: usize) -> Result<Self, Error> {
+        self.name(n)?;
         Ok(self)
     }
     fn serialize_struct_variant(self, _n: &'static str, _i: u32, _v: &'static str, _l: usize) -> Result<Self::SerializeStructVariant, Error> {
@@ -215,9 +250,24 @@ impl<'a, W: Write> ser::SerializeStruct for &'a mut Ser<W> {
 
 pub struct De<R: Read> {
     r: R,
+    names: bool,
 }
 
 impl<R: Read> De<R> {
+    fn name(&mut self, want: &'static str) -> Result<(), Error> {
+        if self.names {
+            let len = self.u64()?;
+            if len > 256 {
+                return Err(Error("absurd struct-name length".into()));
+            }
+            let mut b = vec![0u8; len as usize];
+            read_exact(&mut self.r, &mut b)?;
+            if b != want.as_bytes() {
+                return Err(Error(format!("struct name on the wire is `{}`, the Deserialize impl asks for `{want}`", String::from_utf8_lossy(&b))));
+            }
+        }
+        Ok(())
+    }
     fn u64(&mut self) -> Result<u64, Error> {
         let mut b = [0u8; 8];
         read_exact(&mut self.r, &mut b)?;
@@ -286,7 +336,8 @@ impl<'de, 'a, R: Read> de::Deserializer<'de> for &'a mut De<R> {
     fn deserialize_unit_struct<V: Visitor<'de>>(self, _n: &'static str, v: V) -> Result<V::Value, Error> {
         v.visit_unit()
     }
-    fn deserialize_newtype_struct<V: Visitor<'de>>(self, _n: &'static str, v: V) -> Result<V::Value, Error> {
+    fn deserialize_newtype_struct<V: Visitor<'de>>(self, n: &'static str, v: V) -> Result<V::Value, Error> {
+        self.name(n)?;
         v.visit_newtype_struct(self)
     }
     fn deserialize_seq<V: Visitor<'de>>(self, v: V) -> Result<V::Value, Error> {
@@ -302,7 +353,8 @@ impl<'de, 'a, R: Read> de::Deserializer<'de> for &'a mut De<R> {
     fn deserialize_tuple_struct<V: Visitor<'de>>(self, _n: &'static str, len: usize, v: V) -> Result<V::Value, Error> {
         v.visit_seq(Counted { de: self, left: len })
     }
-    fn deserialize_struct<V: Visitor<'de>>(self, _n: &'static str, fields: &'static [&'static str], v: V) -> Result<V::Value, Error> {
+    fn deserialize_struct<V: Visitor<'de>>(self, n: &'static str, fields: &'static [&'static str], v: V) -> Result<V::Value, Error> {
+        self.name(n)?;
         v.visit_seq(Counted { de: self, left: fields.len() })
     }
     fn deserialize_enum<V: Visitor<'de>>(self, _n: &'static str, _vs: &'static [&'static str], _v: V) -> Result<V::Value, Error> {
